@@ -3566,6 +3566,7 @@ func (g *groupConsumer) commit(
 				<-priorDone
 			}
 		}
+		verifPoint("commit.preissue")
 		g.cfg.logger.Log(LogLevelDebug, "issuing commit", "group", g.cfg.group, "uncommitted", uncommitted)
 
 		groupTopics := g.tps.load()
